@@ -345,6 +345,29 @@ def run(tier):
         okd = is_call(v, 'del_to_delay_ms') and is_call(v[2][0], 'rx_delay')
     res.require(okd, 'C11:Otaa::handle_rx:rx1_delay', 'rx1_delay is not del_to_delay_ms(accept.rx_delay())', bh.body.path, 'PROVENANCE(rx1_delay)',
                 instance='Otaa::handle_rx: rx1_delay = del_to_delay_ms(rx_delay())')
+    # exactness: the accept's settings are applied whenever the accept is authentic (and the region accepts the value):
+    # no other condition may stand before these writes
+    def extra_guards(bb, allowed_call=None):
+        out = []
+        for cnd in path_conditions(bh, bb):
+            tm = cnd[0]
+            if has_call(tm, 'check_mic_and_decrypt_in_place') and not (allowed_call and has_call(tm, allowed_call)) and tm[0] == 'discr' and is_call(tm[1], 'check_mic_and_decrypt_in_place'):
+                continue
+            if allowed_call and has_call(tm, allowed_call):
+                continue
+            out.append((term_str(tm)[:100], cnd[1]))
+        return out
+    for field, allowed in (('rx1_delay', None), ('rx1_dr_offset', 'rx1_dr_offset_validate'), ('rx2_data_rate', 'get_datarate')):
+        for bb, si, s_, root, path in bh.field_writes():
+            if path == [field]:
+                eg = extra_guards(bb, allowed)
+                res.require(not eg, 'C11:Otaa::handle_rx:%s-extra-guard' % field, 'the accept\'s %s is not always applied: extra condition %s' % (field, eg), short_site(bh, bb, si),
+                            'EXACT-GUARD(authentic accept%s <=> write)' % (' and region validity' if allowed else ''), instance='Otaa::handle_rx: %s written on every authentic accept%s' % (field, ' the region accepts' if allowed else ''))
+    for bb, t in bh.calls():
+        if callee_name(t).endswith('process_join_accept') or callee_name(t).endswith('Session::derive_new'):
+            eg = extra_guards(bb)
+            res.require(not eg, 'C11:Otaa::handle_rx:%s-extra-guard' % callee_name(t).split('::')[-1], '%s does not happen for every authentic accept: extra condition %s' % (callee_name(t).split('::')[-1], eg),
+                        short_site(bh, bb), 'EXACT-GUARD(authentic accept <=> effect)', instance='Otaa::handle_rx: %s for every authentic accept' % callee_name(t).split('::')[-1])
     pj = [(bb, t) for bb, t in bh.calls() if callee_name(t).endswith('process_join_accept')]
     okp = len(pj) == 1 and has_call(term_of_operand(bh, pj[0][1].args[1]), 'c_f_list')
     res.require(okp, 'C11:Otaa::handle_rx:cflist', 'the CFList of the accept is not handed to the region', bh.body.path, 'PROVENANCE(CFList)',
